@@ -429,3 +429,358 @@ Proof.
   rewrite Ef. cbn [app length]. reflexivity.
 Qed.
 End ConvArr.
+
+(* ------------------------------------------------------------------------- *)
+(* the printer's loop over a list of values and arrays                        *)
+Lemma canon_app a b : canon (a ++ b) = canon a ++ canon b.
+Proof. unfold canon. apply map_app. Qed.
+Lemma canon_scalars vs : canon (map TS vs) = map TS vs.
+Proof. unfold canon. rewrite map_map. reflexivity. Qed.
+Lemma canon_arrs es tys : canon (arrs es tys) = repeat (TA (last_type es) es) (length tys).
+Proof. induction tys as [|t tys IH]; [reflexivity|]. unfold canon, arrs in *. cbn [map length repeat canon1]. now rewrite IH. Qed.
+
+Lemma flat_split_scalars : forall vs tvs, Forall scalar vs -> (length vs <= length (flat tvs))%nat ->
+  firstn (length vs) (flat tvs) = vs -> exists tvs2, tvs = map TS vs ++ tvs2.
+Proof.
+  induction vs as [|x vs IH]; intros tvs Hs Hl Hf; [exists tvs; reflexivity|].
+  destruct tvs as [|[v|ty e] r]; [cbn in Hl; lia| |].
+  - change (flat (TS v :: r)) with (v :: flat r) in *. cbn [length firstn] in *. inversion Hf as [[Ex Er]]. subst x.
+    rewrite Er. destruct (IH r (Forall_inv_tail Hs) ltac:(lia) Er) as (tvs2 & ->). exists tvs2. reflexivity.
+  - change (flat (TA ty e :: r)) with (VArr ty (Z.of_nat (length e)) :: e ++ flat r) in *.
+    cbn [length firstn] in Hf. inversion Hf as [[Ex Er]].
+    pose proof (Forall_inv Hs) as Hx. rewrite <- Ex in Hx. contradiction.
+Qed.
+
+Section PrintMixed.
+Variables dec2f dec2d : list Z -> Z.
+Variable o : popts.
+Variables zf zd : Z.
+Hypothesis Hz : zchoice zf zd.
+Notation item_ok := (item_ok dec2f dec2d).
+Notation iter_text := (iter_text dec2f dec2d).
+Notation m_ok := (m_ok dec2f dec2d).
+
+(* the printer's previous value against the reader's context *)
+Definition pctx (c : mctx) (prev : option av) : Prop :=
+  match c with
+  | CItem p => prev = p
+  | CArr (Some pv) => prev = Some pv
+  | CArr None => exists ty z, prev = Some (VArr ty z)
+  end.
+
+Fixpoint mseq_from (pend : bool) (c : mctx) (ms : list mi) (sfx : list Z) : Prop :=
+  match ms with
+  | [] => sfx = []
+  | m :: rest =>
+      exists sepz sfx', sfx = sepz ++ m_text m ++ sfx' /\ m_ok c m /\
+        (if pend then sepw sepz else sepz = []) /\ mseq_from true (m_next m) rest sfx'
+  end.
+
+Lemma item_orig_scalar p it : item_ok p it -> Forall scalar (item_orig it).
+Proof.
+  destruct it as [v t|n v t|k b d m last sp]; cbn [ListProofs.item_ok item_orig].
+  - intros [(_ & _ & Hs) _]. now constructor.
+  - intros (_ & (_ & _ & Hs) & _). apply Forall_forall. intros x Hx. apply repeat_spec in Hx. now subst.
+  - intros _. apply Forall_forall. intros x Hx. apply in_map_iff in Hx as (j & <- & _). now destruct k.
+Qed.
+
+Lemma iter_orig_scalar prev its t : iter_text prev its t -> Forall scalar (iorig its).
+Proof.
+  intros H. destruct its as [|it1 [|it2 [|? ?]]]; cbn [ListProofs.iter_text] in H; try contradiction;
+    unfold iorig; cbn [map concat]; rewrite ?app_nil_r.
+  - exact (item_orig_scalar _ _ (proj2 H)).
+  - destruct H as (_ & H1 & H2). apply Forall_app. split; [exact (item_orig_scalar _ _ H1)|exact (item_orig_scalar _ _ H2)].
+Qed.
+
+(* the first item of an iteration in the reader's context *)
+Lemma m_ok_first c prev it rest :
+  pctx c prev -> item_ok prev it -> first_notconf prev (it :: rest) -> m_ok c (MI it).
+Proof.
+  intros Hc Hok Hnc. destruct c as [p|q]; cbn [pctx MixedProofs.m_ok] in *.
+  - now subst.
+  - destruct it as [v t|n v t|k b d m last sp]; cbn [ListProofs.item_ok aft_ok first_notconf] in *.
+    + split; [exact Hok|now destruct q].
+    + split; [exact Hok|now destruct q].
+    + destruct Hok as (Hrun & Hsp & _). destruct Hnc as [Hnc Hunit].
+      split; [split; [exact Hrun|split; [exact Hsp|exact Hunit]]|].
+      destruct q as [pv|]; [|exact I]. subst prev. cbn [notconf] in Hnc.
+      destruct Hnc as [Hne| ->]; [left|now right].
+      rewrite types_match_kind'. now apply Z.eqb_neq.
+Qed.
+
+Lemma morig_items its : morig (map MI its) = map TS (iorig its).
+Proof.
+  induction its as [|it its IH]; [reflexivity|].
+  unfold morig, iorig in *. cbn [map concat m_orig]. now rewrite IH, map_app.
+Qed.
+
+(* what one iteration over a value emits joins what the later ones emit *)
+Lemma mseq_join c prev its1 t ms2 sfx2 (pend : bool) sepz :
+  pctx c prev -> iter_text prev its1 t -> first_notconf prev its1 ->
+  mseq_from true (CItem (ilast its1)) ms2 sfx2 ->
+  (if pend then sepw sepz else sepz = []) ->
+  mseq_from pend c (map MI its1 ++ ms2) (sepz ++ t ++ sfx2).
+Proof.
+  intros Hc Hit Hnc Hseq Hsepz.
+  destruct its1 as [|it1 [|it2 [|? ?]]]; cbn [ListProofs.iter_text] in Hit; try contradiction.
+  - destruct Hit as (-> & Hok1). cbn [ilast rev app item_last] in Hseq. cbn [map app mseq_from].
+    exists sepz, sfx2. split; [reflexivity|]. split; [exact (m_ok_first c prev it1 [] Hc Hok1 Hnc)|].
+    split; [exact Hsepz|exact Hseq].
+  - destruct Hit as (-> & Hok1 & Hok2). cbn [ilast rev app item_last] in Hseq. cbn [map app mseq_from].
+    exists sepz, ([32] ++ item_text it2 ++ sfx2). split; [now rewrite <- !app_assoc|].
+    split; [exact (m_ok_first c prev it1 [it2] Hc Hok1 Hnc)|].
+    split; [exact Hsepz|]. exists [32], sfx2. split; [reflexivity|]. split; [exact Hok2|].
+    split; [apply sepw_32|exact Hseq].
+Qed.
+(* one iteration of the loop of rtosc_print_arg_vals: what it emits (ms1, as the
+   text sepz ++ t) and the state it leaves *)
+Definition step_ok (c : mctx) (prev : option av) (tvs : list tv) (i n : Z) (acc : list Z) (pend : bool) (wrt : Z)
+           (f : nat) (res : list Z * Z) : Prop :=
+  exists ms1 t sepz tvs2 c2 prev2 inc (pend2 : bool) wrt2 cols2 awtl2,
+    (forall ms2 sfx2, mseq_from true c2 ms2 sfx2 -> mseq_from pend c (ms1 ++ ms2) (sepz ++ t ++ sfx2)) /\
+    ms1 <> [] /\ pctx c2 prev2 /\ canon tvs = morig ms1 ++ canon tvs2 /\ Forall (goodt o zf zd) tvs2 /\
+    length (flat tvs) = (inc + length (flat tvs2))%nat /\ (1 <= inc)%nat /\
+    (tvs2 = [] -> pend2 = false) /\
+    wrt2 - (if pend2 then 1 else 0) = wrt + len sepz + len t - (if pend then 1 else 0) /\
+    print_vals_loop f o (flat tvs2) prev2 (i + Z.of_nat inc) n (acc ++ sepz ++ t) pend2 wrt2 cols2 awtl2 = Some res.
+
+Lemma step_val c f v tvs' prev i n acc pend wrt cols awtl res :
+  goodc o zf zd v -> Forall (goodt o zf zd) tvs' -> Z.of_nat (length (flat (TS v :: tvs'))) < 2 ^ 31 ->
+  n = i + Z.of_nat (length (flat (TS v :: tvs'))) -> pctx c prev ->
+  print_vals_loop (S f) o (flat (TS v :: tvs')) prev i n acc pend wrt cols awtl = Some res ->
+  step_ok c prev (TS v :: tvs') i n acc pend wrt f res.
+Proof.
+  intros Hgv Hg Hlen Hn Hc Hrun.
+  change (flat (TS v :: tvs')) with (v :: flat tvs') in *. set (rest := flat tvs') in *.
+  assert (Hgr : Forall (goodca o zf zd) rest) by (apply goodt_flat; exact Hg).
+  cbn [print_vals_loop] in Hrun. cbn [length] in Hn. replace (n <=? i) with false in Hrun by lia.
+  destruct (goodc_facts o zf zd v Hgv) as (Hs0 & _).
+  destruct (convert_to_range o (v :: rest) (n - i)) as [|cc kk|] eqn:Ecv; [| |discriminate].
+  1: rewrite top_plain in Hrun by (destruct v; cbn in Hs0; try contradiction; cbn; lia).
+  2: destruct (conv_yes_head o _ _ _ _ Ecv) as (n0 & h0 & r0 & Ec0); rewrite Ec0 in Hrun;
+     rewrite top_plain in Hrun by (cbn; lia); rewrite <- Ec0 in Hrun.
+  all: match type of Hrun with context [print_arg_val ?oo ?inp ?cc0 ?pp] =>
+         destruct (print_arg_val oo inp cc0 pp) as [[[[t tmp] cols1] bb]|] eqn:Epr; [|discriminate] end.
+  all: match type of Ecv with _ = ?cv =>
+         destruct (print_iter_any_sa dec2f dec2d o 4 zf zd Hz v rest (n - i) prev t tmp cols cols1 bb cv Hgv Hgr Hlen Ecv
+                     ltac:(discriminate) Epr)
+           as (its1 & inc & -> & -> & Hinc & Hrange & Horig & Hit & Hnth & _ & Hnc) end.
+  all: destruct (if breaks_itself (av_type v) then (false, cols1, awtl)
+                 else lb_check (linelength o) cols1 (len t) awtl) as [[brk_ cols2] awtl2] eqn:Elb.
+  all: rewrite orb_false_r in Hrun; destruct (brk_ && negb pend) eqn:Ebp; [discriminate|].
+  all: set (sepz := if brk_ then nl4 else if pend then [32] else []) in *.
+  all: assert (Hsepz : if pend then sepw sepz else sepz = [])
+         by (subst sepz; destruct pend, brk_; cbn in *; try reflexivity; try discriminate;
+             [apply sepw_nl4|apply sepw_32]).
+  all: assert (Hlz : len sepz = (if brk_ then 4 else 0) + (if pend then 1 else 0))
+         by (subst sepz; destruct pend, brk_; cbn in *; try reflexivity; discriminate).
+  all: rewrite <- Hinc in Hrun.
+  all: assert (Hsk : skipz (Z.of_nat inc) (v :: rest) = skipn inc (v :: rest)) by (unfold skipz; now rewrite Nat2Z.id).
+  all: assert (Hnt : nth_error (v :: rest) (Z.to_nat (Z.of_nat inc - 1)) = ilast its1)
+         by (replace (Z.to_nat (Z.of_nat inc - 1)) with (inc - 1)%nat by lia; exact Hnth).
+  all: rewrite Hsk, Hnt in Hrun.
+  all: assert (Hli : length (iorig its1) = inc) by (rewrite Horig, firstn_length; lia).
+  all: destruct (flat_split_scalars (iorig its1) (TS v :: tvs') (iter_orig_scalar _ _ _ Hit)
+                   ltac:(change (flat (TS v :: tvs')) with (v :: rest); rewrite Hli; lia)
+                   ltac:(change (flat (TS v :: tvs')) with (v :: rest); rewrite Hli; symmetry; exact Horig))
+         as (tvs2 & Etv).
+  all: assert (Hsk2 : skipn inc (v :: rest) = flat tvs2)
+         by (change (v :: rest) with (flat (TS v :: tvs')); rewrite Etv, flat_app, flat_scalars, skipn_app, <- Hli,
+             skipn_all, Nat.sub_diag; reflexivity).
+  all: rewrite Hsk2 in Hrun.
+  all: assert (Hlen2 : length (v :: rest) = (inc + length (flat tvs2))%nat)
+         by (rewrite <- Hsk2, skipn_length; lia).
+  all: assert (Hg2 : Forall (goodt o zf zd) tvs2)
+         by (assert (Hall : Forall (goodt o zf zd) (TS v :: tvs')) by (constructor; assumption);
+             rewrite Etv in Hall; now apply Forall_app in Hall as [_ Hall]).
+  all: assert (Hil : exists lst, ilast its1 = Some (item_last lst))
+         by (destruct its1 as [|it1 [|it2 [|? ?]]]; cbn [ListProofs.iter_text] in Hit; try contradiction; eexists; reflexivity).
+  all: destruct Hil as (lst & Eil).
+  all: destruct (i + Z.of_nat inc <? n) eqn:Ein.
+  all: match type of Hrun with print_vals_loop _ _ _ _ _ _ _ ?pend2 ?wrt2 ?cols3 ?awtl3 = _ =>
+         exists (map MI its1), t, sepz, tvs2, (CItem (ilast its1)), (ilast its1), inc, pend2, wrt2, cols3, awtl3 end.
+  all: split; [intros ms2 sfx2 Hseq2; exact (mseq_join c prev its1 t ms2 sfx2 pend sepz Hc Hit Hnc Hseq2 Hsepz)|].
+  all: split; [destruct its1; [cbn [ListProofs.iter_text] in Hit; contradiction|discriminate]|].
+  all: split; [reflexivity|].
+  all: split; [rewrite Etv, canon_app, canon_scalars, morig_items; reflexivity|].
+  all: split; [exact Hg2|]. all: split; [exact Hlen2|]. all: split; [lia|].
+  all: split; [first [intros _; reflexivity
+                     |intros E2; exfalso; rewrite E2 in Hlen2; cbn [flat map concat length] in Hlen2;
+                      apply Z.ltb_lt in Ein; cbn [length] in *; lia]|].
+  all: split; [lia|exact Hrun].
+Qed.
+(* an array printed as an element of the list or behind "Nx" *)
+Lemma print_arr_elem fu parr ty es more cols blank t tmp cols1 bb :
+  Forall (goodc o zf zd) es -> homog es -> Forall (goodca o zf zd) more ->
+  Z.of_nat (length (es ++ more)) < 2 ^ 31 ->
+  print_array (print_arg_val_f (S (S fu))) parr o (VArr ty (Z.of_nat (length es)) :: es ++ more) cols blank
+  = Some (t, tmp, cols1, bb) ->
+  exists its T, t = (if bb then sp4 else []) ++ arr_text T /\ tmp = len t /\ arr_ok dec2f dec2d its T /\
+    iorig its = es /\ lty 32 its = last_type es /\ (blank = false -> bb = false) /\
+    match ilast its with
+    | Some pv => nth_error (es ++ more) (length es - 1) = Some pv /\ es <> []
+    | None => es = []
+    end.
+Proof.
+  intros Hg Hh Hgm Hlen Hp. destruct es as [|a0 rest].
+  - cbn in Hp. inversion Hp; subst. exists [], []. cbn [app]. repeat split; try reflexivity. now left.
+  - destruct (print_array_iseq dec2f dec2d o parr fu zf zd Hz _ ty (a0 :: rest) more cols blank t tmp cols1 bb Hg Hgm Hlen eq_refl
+                ltac:(discriminate) Hp) as (its & T0 & -> & -> & Hseq & Horig & Hne & Hlast & Hbb).
+    destruct (iseq_from_iseq dec2f dec2d _ _ _ _ Hseq Hne) as (sepz & T & -> & HL & ->). cbn [app].
+    assert (Hty : atys_ok 0 its).
+    { apply (atys_from (a0 :: rest) Hh); [|left; reflexivity].
+      intros v tt Hin. rewrite <- Horig. exact (ival_in _ _ _ Hin). }
+    exists its, T. split; [reflexivity|]. split; [reflexivity|]. split; [right; auto|]. split; [exact Horig|].
+    split; [rewrite <- Horig; exact (lty_last dec2f dec2d _ _ _ 32 HL Hne)|]. split; [exact Hbb|].
+    destruct (ilast its) as [pv|] eqn:Eil.
+    + split; [|discriminate]. change (a0 :: rest ++ more) with ((a0 :: rest) ++ more).
+      rewrite nth_error_app1 by (cbn [length]; lia). exact Hlast.
+    + exfalso. unfold ilast in Eil. destruct (rev its) eqn:Er; [|discriminate].
+      apply (f_equal (@length _)) in Er. rewrite rev_length in Er. destruct its; [congruence|discriminate].
+Qed.
+
+Lemma nth_error_skipn {A} (l : list A) : forall a b, nth_error (skipn a l) b = nth_error l (a + b).
+Proof. induction l as [|x l IH]; intros [|a] b; cbn [skipn Nat.add nth_error]; try reflexivity; [now destruct b|apply IH]. Qed.
+
+Lemma last_of_blocks es tys0 tl X :
+  nth_error (flat (arrs es (tys0 ++ [tl]) ++ X)) (length (tys0 ++ [tl]) * S (length es) - 1)
+  = match es with [] => Some (VArr tl 0) | _ => nth_error es (length es - 1) end.
+Proof.
+  replace (length (tys0 ++ [tl]) * S (length es) - 1)%nat with (length tys0 * S (length es) + length es)%nat
+    by (rewrite app_length; cbn [length]; lia).
+  rewrite <- nth_error_skipn.
+  replace (arrs es (tys0 ++ [tl]) ++ X) with (arrs es tys0 ++ (TA tl es :: X))
+    by (unfold arrs; rewrite map_app; cbn [map]; now rewrite <- app_assoc).
+  rewrite skip_blocks. unfold flat. cbn [map concat tv_flat app].
+  destruct es as [|e0 er]; [reflexivity|].
+  cbn [length nth_error]. rewrite nth_error_app1 by (cbn [length]; lia). f_equal. cbn [length]. lia.
+Qed.
+
+Lemma step_arr c f ty es tvs' prev i n acc pend wrt cols awtl res :
+  Forall (goodc o zf zd) es -> homog es -> Forall (goodt o zf zd) tvs' ->
+  Z.of_nat (length (flat (TA ty es :: tvs'))) < 2 ^ 31 ->
+  n = i + Z.of_nat (length (flat (TA ty es :: tvs'))) -> pctx c prev ->
+  print_vals_loop (S f) o (flat (TA ty es :: tvs')) prev i n acc pend wrt cols awtl = Some res ->
+  step_ok c prev (TA ty es :: tvs') i n acc pend wrt f res.
+Proof.
+  intros Hges Hh Hg Hlen Hn Hc Hrun.
+  assert (Eargs : flat (TA ty es :: tvs') = VArr ty (Z.of_nat (length es)) :: es ++ flat tvs') by reflexivity.
+  assert (Hgm : Forall (goodca o zf zd) (flat tvs')) by (apply goodt_flat; exact Hg).
+  assert (Hpos : (1 <= length (flat (TA ty es :: tvs')))%nat) by (rewrite Eargs; cbn [length]; lia).
+  cbn [print_vals_loop] in Hrun. replace (n <=? i) with false in Hrun by lia.
+  rewrite Eargs in Hrun at 1. cbv iota in Hrun.
+  destruct (convert_to_range o (flat (TA ty es :: tvs')) (n - i)) as [|cc kk|] eqn:Ecv; [| |discriminate].
+  - (* the array itself *)
+    rewrite Eargs in Hrun. cbn [print_arg_val_top] in Hrun.
+    match type of Hrun with context [print_array ?a ?b ?oo ?inp ?cc0 ?pp] =>
+      destruct (print_array a b oo inp cc0 pp) as [[[[t tmp] cols1] bb]|] eqn:Epr; [|discriminate] end.
+    destruct (print_arr_elem 4 print_arr ty es (flat tvs') cols pend t tmp cols1 bb Hges Hh Hgm
+                ltac:(rewrite Eargs in Hlen; cbn [length] in Hlen; lia) Epr)
+      as (its & T & -> & -> & Hok & Horig & Hlty & Hbb & Hlast).
+    change (breaks_itself (av_type (VArr ty (Z.of_nat (length es))))) with true in Hrun. cbv iota in Hrun.
+    cbn [orb] in Hrun. destruct (bb && negb pend) eqn:Ebp; [discriminate|].
+    cbn [next_arg_offset] in Hrun.
+    assert (Hsk : skipz (Z.of_nat (length es) + 1) (VArr ty (Z.of_nat (length es)) :: es ++ flat tvs') = flat tvs')
+      by (rewrite <- Eargs; exact (skip_block ty es tvs')).
+    rewrite Hsk in Hrun.
+    replace (Z.to_nat (Z.of_nat (length es) + 1 - 1)) with (length es) in Hrun by lia.
+    set (prev2 := nth_error (VArr ty (Z.of_nat (length es)) :: es ++ flat tvs') (length es)) in *.
+    assert (Hp2 : pctx (CArr (ilast its)) prev2).
+    { unfold prev2. destruct (ilast its) as [pv|]; cbn [pctx].
+      - destruct Hlast as [Hl Hne]. destruct es as [|e0 er]; [congruence|]. cbn [length nth_error] in *.
+        replace (S (length er) - 1)%nat with (length er) in Hl by lia. exact Hl.
+      - rewrite Hlast. cbn [length nth_error]. eexists _, _. reflexivity. }
+    set (sepz := if bb then nl4 else if pend then [32] else []).
+    assert (Hsepz : if pend then sepw sepz else sepz = [])
+      by (subst sepz; destruct pend, bb; cbn in *; try reflexivity; try discriminate; [apply sepw_nl4|apply sepw_32]).
+    assert (Eacc : forall X, acc ++ (if bb then [10] else if pend then [32] else []) ++ ((if bb then sp4 else []) ++ arr_text T) ++ X
+                   = acc ++ sepz ++ arr_text T ++ X)
+      by (intros X; subst sepz; destruct bb; cbn [app]; [unfold nl4, sp4; cbn [app]|]; reflexivity).
+    assert (Hlenargs : length (flat (TA ty es :: tvs')) = (S (length es) + length (flat tvs'))%nat)
+      by (rewrite Eargs; cbn [length]; rewrite app_length; lia).
+    destruct (i + (Z.of_nat (length es) + 1) <? n) eqn:Ein.
+    all: match type of Hrun with print_vals_loop _ _ _ _ _ _ _ ?pend2 ?wrt2 ?cols3 ?awtl3 = _ =>
+           exists [MA its T], (arr_text T), sepz, tvs', (CArr (ilast its)), prev2, (S (length es)), pend2, wrt2, cols3, awtl3 end.
+    all: split; [intros ms2 sfx2 Hseq2; cbn [app mseq_from]; exists sepz, sfx2;
+                 split; [reflexivity|]; split; [exact Hok|]; split; [exact Hsepz|exact Hseq2]|].
+    all: split; [discriminate|]. all: split; [exact Hp2|].
+    all: split; [unfold canon, morig; cbn [map concat m_orig canon1 app]; now rewrite Hlty, Horig|].
+    all: split; [exact Hg|]. all: split; [exact Hlenargs|]. all: split; [lia|].
+    all: split; [first [intros _; reflexivity
+                       |intros E2; exfalso; apply Z.ltb_lt in Ein; rewrite Hlenargs, E2 in Hn;
+                        cbn [flat map concat length] in Hn; lia]|].
+    all: split; [subst sepz; destruct bb, pend; cbn in Ebp; try discriminate; unfold len, nl4, sp4; rewrite ?app_length; cbn [length]; lia|].
+    all: replace (i + Z.of_nat (S (length es))) with (i + (Z.of_nat (length es) + 1)) by lia.
+    all: rewrite <- (app_nil_r (arr_text T)) at 1; rewrite <- Eacc, app_nil_r; exact Hrun.
+  - (* five or more equal arrays: a repetition *)
+    destruct (conv_array o zf zd Hz es Hges ty tvs' (n - i) (CYes cc kk) Hg ltac:(lia) Ecv ltac:(discriminate))
+      as [Hcn|(tys & rest2 & y & Etv & Hm4 & Ecy)]; [discriminate|].
+    set (m := S (length tys)) in *.
+    assert (Ecc : cc = VRep (Z.of_nat m) 0 :: VArr ty (Z.of_nat (length es)) :: es ++ [VSpc y]) by congruence.
+    assert (Ekk : kk = Z.of_nat (m * S (length es))) by congruence.
+    clear Ecy. subst cc kk tvs'.
+    rewrite top_plain in Hrun by (cbn; lia). unfold print_arg_val in Hrun. rewrite pavf_rep in Hrun.
+    unfold print_range in Hrun.
+    destruct (compress o); cbn [negb orb] in Hrun; [|discriminate].
+    assert (Em0 : (Z.of_nat m =? 0) = false) by (apply Z.eqb_neq; unfold m; lia).
+    rewrite Em0 in Hrun.
+    cbn [Z.eqb negb] in Hrun. cbv iota in Hrun.
+    unfold print_arr_f in Hrun at 1. fold print_arr_f in Hrun.
+    match type of Hrun with context [print_array ?a ?b ?oo ?inp ?cc0 ?pp] =>
+      destruct (print_array a b oo inp cc0 pp) as [[[[t tmp] cols1] bb]|] eqn:Epr; [|discriminate] end.
+    destruct (print_arr_elem 2 (print_arr_f 4) ty es [VSpc y] _ false t tmp cols1 bb Hges Hh
+                ltac:(constructor; [right; right; eauto|constructor])
+                ltac:(rewrite Eargs in Hlen; cbn [length] in Hlen; rewrite !app_length in *; cbn [length] in *; lia) Epr)
+      as (its & T & -> & -> & Hok & Horig & Hlty & Hbb & Hlast).
+    rewrite (Hbb eq_refl) in *. cbn [app] in Hrun. cbv iota in Hrun.
+    change (breaks_itself (av_type (VArr ty (Z.of_nat (length es))))) with true in Hrun. cbv iota in Hrun.
+    cbn [orb andb] in Hrun.
+    assert (Hblk : forall l, length (flat (arrs es l)) = (length l * S (length es))%nat).
+    { clear. intros l. induction l as [|t l IHl]; [reflexivity|].
+      change (arrs es (t :: l)) with (TA t es :: arrs es l).
+      unfold flat in *. cbn [map concat tv_flat length]. rewrite app_length, IHl. cbn [length]. lia. }
+    assert (Eall : flat (TA ty es :: arrs es tys ++ rest2) = flat (arrs es (ty :: tys) ++ rest2)) by reflexivity.
+    assert (Hlenargs : length (flat (TA ty es :: arrs es tys ++ rest2)) = (m * S (length es) + length (flat rest2))%nat)
+      by (rewrite Eall, flat_app, app_length, Hblk; reflexivity).
+    assert (Hsk : skipz (Z.of_nat (m * S (length es))) (flat (TA ty es :: arrs es tys ++ rest2)) = flat rest2)
+      by (unfold skipz; rewrite Nat2Z.id, Eall; exact (skip_blocks es (ty :: tys) rest2)).
+    rewrite Hsk in Hrun.
+    replace (Z.to_nat (Z.of_nat (m * S (length es)) - 1)) with (m * S (length es) - 1)%nat in Hrun by lia.
+    set (prev2 := nth_error (flat (TA ty es :: arrs es tys ++ rest2)) (m * S (length es) - 1)) in *.
+    assert (Hp2 : pctx (CArr (ilast its)) prev2).
+    { unfold prev2. rewrite Eall.
+      assert (Hne : ty :: tys <> []) by discriminate.
+      destruct (exists_last Hne) as (tys0 & tl & Et). rewrite Et.
+      replace m with (length (tys0 ++ [tl])) by (rewrite <- Et; reflexivity).
+      rewrite last_of_blocks. destruct (ilast its) as [pv|]; cbn [pctx].
+      - destruct Hlast as [Hl Hnn]. destruct es as [|e0 er]; [congruence|].
+        rewrite nth_error_app1 in Hl by (cbn [length]; lia). exact Hl.
+      - rewrite Hlast. eexists _, _. reflexivity. }
+    assert (Ed : print_d (Z.of_nat m) = dec_nat (Z.of_nat m))
+      by (unfold print_d; now replace (Z.of_nat m <? 0) with false by lia).
+    rewrite Ed in Hrun.
+    set (sepz := if pend then [32] else []) in *.
+    assert (Hsepz : if pend then sepw sepz else sepz = []) by (subst sepz; destruct pend; [apply sepw_32|reflexivity]).
+    assert (Et : (dec_nat (Z.of_nat m) ++ [120]) ++ arr_text T = m_text (MR (Z.of_nat m) its T))
+      by (cbn [m_text]; now rewrite <- app_assoc).
+    rewrite Et in Hrun.
+    assert (Hg2 : Forall (goodt o zf zd) rest2) by (now apply Forall_app in Hg as [_ Hg]).
+    assert (Hm31 : Z.of_nat m < 2 ^ 31) by (rewrite Hlenargs in Hlen; nia).
+    destruct (i + Z.of_nat (m * S (length es)) <? n) eqn:Ein.
+    all: match type of Hrun with print_vals_loop _ _ _ _ _ _ _ ?pend2 ?wrt2 ?cols3 ?awtl3 = _ =>
+           exists [MR (Z.of_nat m) its T], (m_text (MR (Z.of_nat m) its T)), sepz, rest2, (CArr (ilast its)), prev2,
+                  (m * S (length es))%nat, pend2, wrt2, cols3, awtl3 end.
+    all: split; [intros ms2 sfx2 Hseq2; cbn [app mseq_from]; exists sepz, sfx2;
+                 split; [reflexivity|]; split; [cbn [MixedProofs.m_ok]; split; [subst m; lia|exact Hok]|];
+                 split; [exact Hsepz|exact Hseq2]|].
+    all: split; [discriminate|]. all: split; [exact Hp2|].
+    all: split; [change (TA ty es :: arrs es tys ++ rest2) with (arrs es (ty :: tys) ++ rest2);
+                 rewrite canon_app, canon_arrs; unfold morig; cbn [map concat m_orig app];
+                 rewrite app_nil_r, Nat2Z.id, Hlty, Horig; reflexivity|].
+    all: split; [exact Hg2|]. all: split; [exact Hlenargs|]. all: split; [subst m; lia|].
+    all: split; [first [intros _; reflexivity
+                       |intros E2; exfalso; apply Z.ltb_lt in Ein; rewrite Hlenargs, E2 in Hn;
+                        cbn [flat map concat length] in Hn; lia]|].
+    all: split; [rewrite <- Et, !len_app; unfold sepz; destruct pend; change (len [32]) with 1; change (len []) with 0; lia|exact Hrun].
+Qed.
+End PrintMixed.
